@@ -27,6 +27,8 @@ SHAPES = [
     ("q/c", 1, lambda a: B("/", a, C[2])), ("q-2*q", 2, lambda a, b: B("-", a, B("*", N("2"), b))), ("q/q-q", 3, lambda a, b, c: B("-", B("/", a, b), c)),
 ]
 SHAPES += [("q*q-q (repeated)", 2, lambda a, b: B("-", B("*", a, a), b)), ("q+c", 1, lambda a: B("+", a, N("1"))), ("c-q/q", 2, lambda a, b: B("-", N("0.5"), B("/", a, b)))]
+SHAPES += [("tiny*q+q", 2, lambda a, b: B("+", B("*", N("1e-13"), a), b)), ("digits*q", 1, lambda a: B("*", N("1.23456789e-7"), a)),
+           ("huge*q-q", 2, lambda a, b: B("-", B("*", N("1e15"), a), b)), ("q/big", 1, lambda a: B("/", a, N("3e12")))]
 SHAPES_T = [("q*q*q-q", 4, lambda a, b, c, d: B("-", B("*", B("*", a, b), c), d)), ("q**2-q/q", 3, lambda a, b, c: B("-", B("**", a, N("2")), B("/", b, c)))]
 
 
